@@ -6,7 +6,7 @@
 #   tools/verify_seeded.sh C06 [suffix]
 set -u
 ID=$1; SUF=${2:-}
-WT=/tmp/seed-$ID$SUF; OUT=/tmp/seed-out/$ID$SUF
+WT=/tmp/seed$SUF-$ID; OUT=/tmp/seed-out/$ID$SUF
 lid=$(echo "$ID" | tr A-Z a-z)
 DEMO=$(ls $WT/tests/demo_*.rs 2>/dev/null | head -1)
 [ -f "$OUT/patch.diff" ] && [ -n "$DEMO" ] || { echo "$ID: deliverables missing"; exit 2; }
